@@ -203,6 +203,7 @@ def _finish(mod, prop, tier, base, cfg, nshards, results, shard_done, harness_er
         "real_vs_stub": getattr(mod, "REAL_VS_STUB", {}),
         "known_findings_reported": known_lines,
         "zero_probes": sorted(k for k in getattr(mod, "PROBES", []) if not stats.get(k)),
+        "violating_seeds": len({v["seed"] for v in viols}),
     }
     ev = {
         "property_id": prop, "tier": tier, "seed": base, "level": "exploration",
@@ -218,7 +219,8 @@ def _finish(mod, prop, tier, base, cfg, nshards, results, shard_done, harness_er
 
     print(f"[{prop}] tier={tier} seed={base} shards={nshards} seeds {done}/{planned} "
           f"evaluations={evals} distinct_nontrivial={len(keys)} "
-          f"interleavings={len(interleavings)} wall={wall:.1f}s")
+          f"interleavings={len(interleavings)} wall={wall:.1f}s"
+          + (f" violating_seeds={len({v['seed'] for v in viols})}" if viols else ""))
     for k in coverage["zero_probes"]:
         print(f"[{prop}] WARNING probe never fired: {k}")
     for line in known_lines:
